@@ -473,19 +473,22 @@ namespace awkward {
         }
         i++;
       } while (i != nexttotry_);
-      nextindex_ = keys_size_;
-      nexttotry_ = 0;
-      if (length_ == 0) {
-        contents_.push_back(UnknownBuilder::fromempty(options_));
-      }
-      else {
-        contents_.push_back(
-          OptionBuilder::fromnulls(options_,
+      // everything that can fail (it allocates) comes first, so that a failure leaves
+      // the record as it was instead of pointing 'nextindex_' at a field that is not there
+      BuilderPtr content = (length_ == 0
+        ? UnknownBuilder::fromempty(options_)
+        : OptionBuilder::fromnulls(options_,
                                    length_,
                                    UnknownBuilder::fromempty(options_)));
-      }
-      keys_.push_back(std::string(key));
+      std::string newkey(key);
+      contents_.reserve(contents_.size() + 1);
+      keys_.reserve(keys_.size() + 1);
+      pointers_.reserve(pointers_.size() + 1);
+      contents_.push_back(content);
+      keys_.push_back(std::move(newkey));
       pointers_.push_back(key);
+      nextindex_ = keys_size_;
+      nexttotry_ = 0;
       keys_size_ = (int64_t)keys_.size();
       return shared_from_this();
     }
@@ -519,19 +522,22 @@ namespace awkward {
         }
         i++;
       } while (i != nexttotry_);
-      nextindex_ = keys_size_;
-      nexttotry_ = 0;
-      if (length_ == 0) {
-        contents_.push_back(UnknownBuilder::fromempty(options_));
-      }
-      else {
-        contents_.push_back(
-          OptionBuilder::fromnulls(options_,
+      // everything that can fail (it allocates) comes first, so that a failure leaves
+      // the record as it was instead of pointing 'nextindex_' at a field that is not there
+      BuilderPtr content = (length_ == 0
+        ? UnknownBuilder::fromempty(options_)
+        : OptionBuilder::fromnulls(options_,
                                    length_,
                                    UnknownBuilder::fromempty(options_)));
-      }
-      keys_.push_back(std::string(key));
+      std::string newkey(key);
+      contents_.reserve(contents_.size() + 1);
+      keys_.reserve(keys_.size() + 1);
+      pointers_.reserve(pointers_.size() + 1);
+      contents_.push_back(content);
+      keys_.push_back(std::move(newkey));
       pointers_.push_back(nullptr);
+      nextindex_ = keys_size_;
+      nexttotry_ = 0;
       keys_size_ = (int64_t)keys_.size();
       return shared_from_this();
     }
